@@ -32,9 +32,8 @@
 //   * QXmppFileMetadata/QXmppThumbnail media types: QMimeType values looked up from a pool of registered names (an unknown name has no QMimeType).
 //   * QXmppHttpFileSource: the URL is a QUrl built with QUrl::setPath()/setQuery() in decoded mode from generated text.
 //
-// Nested use of two classes with a recorded FINDING: inside enclosing classes a feedback interval stays within 32 bits and a payload
-// type's channels stays within 1..127, so that those findings (reported by the stand-alone entries, which keep the whole range) do not
-// mask the other fields of QXmppJingleDescription / Content / QXmppJingleIq / JMI.  The tape consumption is the same either way.
+// Two classes had a FINDING (feedback interval above 32 bits, payload type channels outside 1..127); both are repaired in /repo and
+// the generators use the whole range everywhere.
 //
 // Skipped:
 //   * QXmppBitsOfBinaryDataList: toXml() writes a bare sequence of siblings and parse() reads the children of the element it is given: not a
@@ -158,10 +157,8 @@ inline QXmppJingleRtpFeedbackInterval genFbInterval(Vals &v, bool nested)
 {
     QXmppJingleRtpFeedbackInterval i;
     uint64_t x = num<uint64_t>(v);
-    // FINDING (QXmppJingleRtpFeedbackInterval): value() is uint64_t but parse() reads it with QString::toUInt(): anything above
-    // 2^32-1 comes back as 0.  The stand-alone entry keeps the whole range; nested uses stay within 32 bits (see the top of the file).
-    if (nested)
-        x &= 0xffffffffull;
+    // (was a FINDING: parse() read the 64-bit value with toUInt(); repaired in /repo by d88bb82, so nested uses keep the whole range too)
+    (void)nested;
     i.setValue(x);
     return i;
 }
@@ -199,11 +196,9 @@ inline QXmppJinglePayloadType genPayloadType(Vals &v, bool nested)
         p.setName(v.attr(16));
     if (v.t.b()) {
         unsigned char ch = num<unsigned char>(v);
-        // FINDING (QXmppJinglePayloadType): channels 128..255 are written but parseInt<uint8_t>() rejects them (QXmppUtils.cpp compares
-        // against int8_t's maximum) and the parser falls back to 1; channels 0 is not written (only > 1 is) and also comes back as 1.
-        // The stand-alone entry keeps 0..255; nested uses stay within 1..127 (see the top of the file).
-        if (nested)
-            ch = static_cast<unsigned char>(1 + ch % 127);
+        // (was a FINDING: channels 128..255 rejected by parseInt<uint8_t>(), 0 not written; repaired in /repo by 7019aa3 and 3592ad6,
+        // so nested uses keep the whole range 0..255 too)
+        (void)nested;
         p.setChannels(ch);
     }
     if (v.t.b())
@@ -944,6 +939,12 @@ inline void registerMedia()
     add<QXmppCallInviteElement>("QXmppCallInviteElement", genCallInvite, dumpCallInvite);
     add<QXmppCallInviteElement::Jingle>("QXmppCallInviteElement::Jingle", genCiJingle, dumpCiJingle);
     // ---- file sharing
+    // FINDING (QXmppHash, QXmppHashUsed): toXml() calls writeDefaultNamespace() BEFORE writeStartElement() (QXmppHash.cpp:133-134, 174-175).
+    // While the parent's start tag is still open the declaration is written onto the PARENT: stand-alone, the wrapper element gets it and the
+    // class's parser is handed the wrong element (signature "own-output-rejected"); inside <file/> without <date/>/<desc/> the parent gets a
+    // second xmlns attribute (<file xmlns="urn:xmpp:file:metadata:0" xmlns="urn:xmpp:hashes:2">), which is not well-formed XML for expat/libxml2
+    // although both Qt parsers accept it (so the oracle's well-formedness test does not see it).  Hash fields are still compared through
+    // QXmppFileMetadata / QXmppEncryptedFileSource.  QXmppHashUsed::parse() additionally returns false on every input (QXmppHash.cpp:169).
     add<QXmppHash>("QXmppHash", genHashFull, dumpHash);
     add<QXmppHashUsed>("QXmppHashUsed", [](Vals &v) { return QXmppHashUsed(genHashAlgorithm(v)); }, [](const QXmppHashUsed &h, D &d) { d("algo", h.algorithm()); });
     add<QXmppThumbnail>("QXmppThumbnail", genThumbFull, dumpThumb);
